@@ -204,7 +204,7 @@ fn main() {
     }
 
     let deadline = Instant::now() + Duration::from_secs_f64(run.budget_s);
-    let max_depth = if property == "C04" { run.tier.pick(4, 5) } else { run.tier.pick(3, 5) };
+    let max_depth = run.tier.pick(3, 5);
     let threads = util::n_threads();
     let mut completed_depth = 0;
     for depth in 1..=max_depth {
